@@ -155,12 +155,12 @@ Proof. intros n i x s H. unfold sset. rewrite hchk_in by lia. reflexivity. Qed.
 
 (* ---------------- the early exits ---------------- *)
 Theorem hts_refines_early_exits : forall w h kmax missing data,
-  1 <= w <= 1024 -> 1 <= h <= 1024 ->
+  1 <= w <= 65536 -> 1 <= h <= 65536 ->
   (zlen data = 0 \/ kmax <= 0 \/ missing < 0 \/ 30 <= missing \/ scup_parse data = Err) ->
   hts_samples w h kmax missing data = ht_block_decode w h kmax missing data.
 Proof.
   intros w h kmax missing data Hw Hh C.
-  assert (Hwh : 0 <= w * h <= 1024 * 1024) by nia.
+  assert (Hwh : 0 <= w * h <= 65536 * 65536) by nia.
   unfold hts_samples, hts_decode, ht_block_decode.
   rewrite (hmake_ok (w * h) 4) by (change (2 ^ 48) with 281474976710656; lia). cbn [obind].
   destruct (zlen data =? 0) eqn:E0; [reflexivity|]. apply Z.eqb_neq in E0.
@@ -175,7 +175,7 @@ Qed.
 (* an error of the valid-input model before phase 1 is the same error of the checked model,
    and an empty code block is the same zero block *)
 Corollary hts_empty_block : forall w h kmax missing,
-  1 <= w <= 1024 -> 1 <= h <= 1024 ->
+  1 <= w <= 65536 -> 1 <= h <= 65536 ->
   hts_samples w h kmax missing [] = Ok (repeat 0 (Z.to_nat (w * h))) /\
   ht_block_decode w h kmax missing [] = Ok (repeat 0 (Z.to_nat (w * h))).
 Proof.
